@@ -77,6 +77,8 @@ def run(ck: Checker, prog: Program, tier: str):
     with ck.borrow(c12, "C11.R2+"):
         ck.guard(c12._r3, ck, prog, prog.func(c12.W), prog.func(c12.R))
         ck.guard(c12._r5, ck, prog.func(c12.R))     # each azimuth gets its own accept masks back (members kept in file order)
+    from .common import check_identity_comparisons as _cic
+    ck.guard(_cic, ck, prog, "C11.R1", "C11")
 
 
 def _members_in_lockstep(ck: Checker, prog: Program):
